@@ -195,6 +195,8 @@ ParseChainW(first, b) ==
 HeaderOf(b) == [ispi |-> Sub(b, 1, 8), rspi |-> Sub(b, 9, 8), maj |-> b[18] \div 16, min |-> b[18] % 16,
                 xt |-> b[19], flags |-> b[20], mid |-> Sub(b, 21, 4)]
 
+HdrFields(m) == [ispi |-> m.ispi, rspi |-> m.rspi, maj |-> m.maj, min |-> m.min, xt |-> m.xt, flags |-> m.flags, mid |-> m.mid]
+
 ParseW(b) ==
   IF Len(b) < 28 THEN Err("header truncated")
   ELSE IF Sub(b, 25, 4) # U32(Len(b)) THEN Err("header length differs from datagram size")
